@@ -155,11 +155,31 @@ package database
 //@   modifies *
 //@   at call (*Controller).Query assert arg2 == i.options.Local && arg3 == i.options.Internal
 
+// C02: the forwarder of a batch puts every record the storage accepted into the interface's read
+// cache (or removes it, when deleted) with the record's own remaining lifetime, as Put does, and
+// never as a delayed write
+//@ func (*Interface).PutMany$4
+//@   nopanic off
+//@   modifies *
+//@   ghost var relSet bool = false
+//@   ghost var rel int64 = 0
+//@   ghost var del bool = false
+//@   at after (*Meta).GetRelativeExpiry ghost relSet = true
+//@   at after (*Meta).GetRelativeExpiry ghost rel = ret0
+//@   at after (*Meta).IsDeleted ghost del = ret0
+//@   at call (*Interface).updateCache assert relSet && arg4 == rel && !arg2 && arg3 == del && arg0 == i
+
 //@ func (*Interface).Purge
 //@   requires i != nil && i.options != nil
 //@   nopanic off
 //@   modifies *
 //@   at call (*Controller).Purge assert arg3 == i.options.Local && arg4 == i.options.Internal
+// C02: records that were purged are not served from the interface's read cache afterwards
+//@   ghost var purged int = 0
+//@   ghost var dropped bool = false
+//@   at after (*Controller).Purge ghost purged = ret0
+//@   at optional after invoke.Cache.Purge ghost dropped = true
+//@   ensures i.cache == nil || purged <= 0 || dropped
 
 //@ func (*Interface).Subscribe
 //@   requires i != nil && i.options != nil
